@@ -120,6 +120,7 @@ def pointer_sessions(rng, n):
         expect = list(consts[:k])
         pos = k
         direct = []
+        ghost = False
         for _ in range(rng.randint(1, 4)):
             r = rng.random()
             if r < 0.45 and pos < total:
@@ -127,10 +128,15 @@ def pointer_sessions(rng, n):
                 direct.append("READ C:PRINT C")
                 expect.append(consts[pos])
                 pos += 1
-            elif r < 0.6:
+            elif r < 0.55:
                 calls += [sess.E("PRINT 7"), "R5000"]
                 direct.append("PRINT 7")
                 expect.append(7)
+            elif r < 0.6:
+                # DATA at the prompt is ILLEGAL DIRECT: nothing is printed and the program's constants stay what they are
+                calls += [sess.E(rng.choice(["DATA 150,151", "IF 0 THEN DATA 160"])), "R5000"]
+                direct.append("DATA ... (refused)")
+                ghost = True
             elif r < 0.75:
                 calls += [sess.E("RESTORE:READ C:PRINT C"), "R5000"]
                 direct.append("RESTORE:READ C:PRINT C")
@@ -151,6 +157,16 @@ def pointer_sessions(rng, n):
             calls += [sess.E("READ C:PRINT C"), "R5000"]
             direct.append("READ C:PRINT C")
             expect.append(consts[pos])
+            pos += 1
+        if ghost or rng.random() < 0.3:
+            # read everything that is left, then once more: OUT OF DATA, nothing printed
+            while pos < total:
+                calls += [sess.E("READ C:PRINT C"), "R5000"]
+                direct.append("READ C:PRINT C")
+                expect.append(consts[pos])
+                pos += 1
+            calls += [sess.E("READ C:PRINT C"), "R5000"]
+            direct.append("READ C:PRINT C (past the end)")
         out.append(Case(sess.session(calls), sig="pointer: " + " / ".join(lines) + " ; RUN ; " + " ; ".join(direct),
                         tag="pointer", meta=("pointer", expect)))
     return out
